@@ -65,6 +65,14 @@ def resolve(sym: dict, ctx: Dict[str, Any]) -> Dict[str, Tuple[Any, str]]:
     return out
 
 
+def _as_float(r: Any) -> float:
+    """FloatDataType(value) validates isinstance(value, float): an operation whose arithmetic yields anything else (an int, a numpy
+    array from broadcasting, a complex) fails there, as a processor error."""
+    if not isinstance(r, float):
+        raise Fail("TypeError")
+    return r
+
+
 def _is_marker(a: Any) -> bool:
     try:
         return bool(a == 666.0)
@@ -168,12 +176,12 @@ def step(sym: dict, data: Any, ctx: Dict[str, Any], out: Outcome) -> Any:
         if sym["proc"] == "VSum":
             log.append(("VSum", {}))
             return ("F", float(sum(data[1])))
-        return ("F", float_op(sym["proc"], data[1], p, ctx, log))
+        return ("F", _as_float(float_op(sym["proc"], data[1], p, ctx, log)))
     if kind == "probe":
         ctx[sym["ckey"]] = probe_fn(sym["proc"], data[1], p, log)
         return data
     if kind == "slicer_op":
-        return ("C", [float_op(sym["proc"], x, p, ctx, log) for x in data[1]])
+        return ("C", [_as_float(float_op(sym["proc"], x, p, ctx, log)) for x in data[1]])
     if kind == "slicer_probe":
         ctx[sym["ckey"]] = [probe_fn(sym["proc"], x, p, log) for x in data[1]]
         return data
